@@ -6,7 +6,7 @@
    all-zero txid; in every block the first transaction is a coinbase (its inputs are null outpoints) and no
    other transaction has a null input. *)
 From OrdV Require Import Base.Prelude Generated Index.Inscr Proofs.Inscr_tables Proofs.Inscr_proofs Proofs.Inscr_c04.
-From Coq Require Import Permutation.
+From Coq Require Import Permutation Lia.
 
 (* After every block of every valid chain, for every configuration (sat index on/off, any first inscription
    height): the sequence numbers held by all outputs and pseudo-outputs together are exactly 0..n-1, each
@@ -44,6 +44,21 @@ Proof.
   rewrite Q. exact P.
 Qed.
 
+(* The number of inscriptions is the number of envelopes of the non-coinbase transactions (tl of each
+   block) in blocks at or after the first inscription height - provided the parser's envelopes come in input
+   order and name existing inputs (envelopes_ok; what RawEnvelope::from_transaction does, re-checked by the
+   oracle on every transaction). *)
+Theorem C04_count : forall cfg c st,
+  chain_ok c -> envelopes_ok c -> index_chain cfg 0 c empty_state = Ok st ->
+  next_seq_of (s_entries st) = count_chain cfg 0 c.
+Proof. exact count_invariant. Qed.
+
+(* count_chain spelled out on an example: 2 envelopes in the only non-coinbase transaction *)
+Example C04_count_example : count_chain (cfg_of 0 false) 0
+  [ [mkTx 1 [null_op] [] []]; [mkTx 3 [null_op] [] []; mkTx 4 [(1, 0)] []
+      [mkEnv 0 0 false false false false false false None false []; mkEnv 0 1 false false false false false false None false []]] ] = 2.
+Proof. reflexivity. Qed.
+
 (* Non-vacuity: the chain of C05's example is valid and ends with two inscriptions in one output *)
 Definition c04_env (off : N) : envelope := mkEnv 0 off false false false false false false None false [].
 Definition c04_chain : list block :=
@@ -64,6 +79,12 @@ Proof.
   - eexists. split; [vm_compute; reflexivity|]. reflexivity.
 Qed.
 
+Example C04_count_nonvacuous : envelopes_ok c04_chain /\ count_chain (cfg_of 0 false) 0 c04_chain = 2.
+Proof.
+  split; [|reflexivity]. unfold envelopes_ok, c04_chain. repeat constructor; cbn; unfold le_input; cbn; lia.
+Qed.
+
 Print Assumptions C04_census.
 Print Assumptions C04_exactly_once.
 Print Assumptions C04_satpoints.
+Print Assumptions C04_count.
